@@ -39,19 +39,19 @@ Property clause → theorem (all kernel-checked, quantified over ALL totals / ep
       from an accumulator whose total is the sum of its truncated weights, and paid ≤ (D/T + ½ulp)·Σw + n/(2·10¹⁸) with D the
       daily VALUE of the programme's own AvailableRewards), `ext_lend_weights_vs_total`, `ext_lend_daily_value`,
       `ext_lend_value_at_par`, `ext_lend_epoch_cap_partial` (the literal cap at par price with integral weights),
-      `ext_lend_value_as_amount_counterexample` (D35), `ext_lend_truncated_total_counterexample` (D36)
+      `ext_lend_value_as_amount_counterexample` (D42), `ext_lend_truncated_total_counterexample` (D43)
     "the cumulative amount paid never exceeds the deposit"
     → `ext_cumulative_is_funding_minus_available` (any history), `ext_available_nonneg_of_epoch_caps` (cumulative ≤ funding and
       AvailableRewards ≥ 0 PROVIDED every epoch respects the literal cap — the code does not enforce it, see the three
       counterexamples), `ext_epochs_le_duration`, `ext_one_epoch_per_visit`, `ext_not_due_twice`, `ext_share_visit_valid`,
       `ext_accepted_programme_funded`
-* swap-fee gauges (`sfTrigger`): `sf_epoch_pays_le_collected`; `sf_gauge_leak_counterexample` (D37: a failed fee transfer after
+* swap-fee gauges (`sfTrigger`): `sf_epoch_pays_le_collected`; `sf_gauge_leak_counterexample` (D44: a failed fee transfer after
   a paid distribution leaves the record unchanged, the deposit is paid again every epoch)
 * "the rewards custody account always holds at least the undistributed remainder of all active gauges and external
    reward programs"
     → `custody_ge_remaining` (ledger invariant over create-gauge / pool creation / create-programme / donations / begin
       blockers made of gauge triggers, swap-fee gauge triggers, programme payouts, deactivations, with panicking blocks rolled
-      back; hypothesis `noLeak`: no swap-fee trigger of the history is the D37 situation),
+      back; hypothesis `noLeak`: no swap-fee trigger of the history is the D44 situation),
       `custody_ge_active_remaining` (sum over ACTIVE gauges and programmes, under the explicit hypothesis that no
       programme's `AvailableRewards` is negative — the code has no such guard, the monitor `custody` tests it),
       `farmers_receive_calculated` (under the invariant no reward send can fail for lack of funds);
